@@ -5,6 +5,7 @@ From BddVerif Require Import Model.Bdd Model.Apply Model.Ops Proofs.Sem Proofs.C
 From BddVerif Require Import Model.ApplyFast Proofs.ApplyFast.
 From BddVerif Require Model.ApplyStack Proofs.ApplyStack.
 Open Scope N_scope.
+From BddVerif Require Import Generated.Tables.
 
 (* binary_op / fused_binary_flip_op driven by any consistent partial-operator table: for valid operands
    over the same variable count (any shape, also non-canonical), the call does not panic and the
@@ -92,6 +93,17 @@ Print Assumptions C01_ite_table.
 Theorem C01_not_pointwise : forall b, wf b -> wf (bdd_not b) /\ nvars (bdd_not b) = nvars b /\ forall v, eval (bdd_not b) v = negb (eval b v).
 Proof. intros b W. exact (conj (not_wf b W) (conj (not_nvars b W) (not_sem b W))). Qed.
 Print Assumptions C01_not_pointwise.
+
+(* The tables as they stand in the Rust SOURCE: Generated/Tables.v is re-generated from src/op_function.rs and from
+   `ite_function` in src/_impl_bdd/_impl_boolean_ops.rs by tools/gen_tables.py on every run of this check (arm-by-arm
+   translation of the `match`); the translated source equals the model tables on all 9 (27) inputs, hence the
+   totality/consistency theorems above are statements about the source tables. *)
+Theorem C01_source_tables :
+  (forall l r, src_and l r = op_and l r) /\ (forall l r, src_or l r = op_or l r) /\ (forall l r, src_imp l r = op_imp l r) /\
+  (forall l r, src_iff l r = op_iff l r) /\ (forall l r, src_xor l r = op_xor l r) /\ (forall l r, src_and_not l r = op_and_not l r) /\
+  (forall a b c, src_ite a b c = ite_function a b c).
+Proof. exact (conj and_src_eq (conj or_src_eq (conj imp_src_eq (conj iff_src_eq (conj xor_src_eq (conj and_not_src_eq ite_src_eq)))))). Qed.
+Print Assumptions C01_source_tables.
 
 (* non-vacuity: a concrete non-trivial instance meets the hypotheses *)
 Example C01_nonvacuous :
